@@ -19,7 +19,8 @@ typedef struct {
     int      emcy;    uint32_t emcy_id; int hist;                         /* 1014h, 1003h depth (0 = absent)     */
     int      n_rpdo;  struct { int present; uint32_t cobid; uint8_t type; uint8_t nmap; uint32_t map[8]; int nomap; } rpdo[4];
     int      n_tpdo;  struct { int present; uint32_t cobid; uint8_t type; uint16_t inhibit, event; uint8_t nmap; uint32_t map[8]; int nomap; } tpdo[4];
-    int      sdo_srv; int csdo;
+    int      sdo_srv; int csdo; int sdo_dyn;                             /* sdo_dyn: 1200h:1/:2 writable with the SDO-id type */
+    int      sync_no_cycle;                                                /* 1005h without 1006h */
     int      operational;                                                 /* enter OPERATIONAL after start       */
     int      no_start;                                                    /* leave the node in INIT              */
 } NodeCfg;
@@ -46,6 +47,7 @@ static uint8_t     A8, P8, B8[8];
 static uint16_t    A16, P16, W16[4];
 static uint32_t    A32, P32, N32, R32, W32;
 static uint32_t    CsdoCobTx, CsdoCobRx; static uint8_t CsdoNode;
+static uint32_t    SsdoRx, SsdoTx;
 static uint8_t     DomData[20]; static CO_OBJ_DOM DomObj;
 static CO_NODE_SPEC NcSpec;
 
@@ -75,7 +77,13 @@ static void nc_prepare(void)
     for (i = 0; i < 8; i++) B8[i] = (uint8_t)(0xC0 + i);
     for (i = 0; i < 4; i++) W16[i] = (uint16_t)(0xD0D0 + 0x101 * i);
     od_init(&b, OD, NC_OD_MAX); od_mandatory(&b, &ErrReg);
-    if (NC.sdo_srv) od_sdo_server0(&b);
+    if (NC.sdo_srv && !NC.sdo_dyn) od_sdo_server0(&b);
+    if (NC.sdo_srv && NC.sdo_dyn) {
+        SsdoRx = 0x600u + NC.node_id; SsdoTx = 0x580u + NC.node_id;
+        od_add(&b, CO_KEY(0x1200, 0, CO_OBJ_D___R_), CO_TUNSIGNED8,  (CO_DATA)2);
+        od_add(&b, CO_KEY(0x1200, 1, CO_OBJ_____RW), CO_TSDO_ID, (CO_DATA)&SsdoRx);
+        od_add(&b, CO_KEY(0x1200, 2, CO_OBJ_____RW), CO_TSDO_ID, (CO_DATA)&SsdoTx);
+    }
     if (NC.hist > 0) {
         od_add(&b, CO_KEY(0x1003, 0, CO_OBJ_____RW), CO_TEMCY_HIST, (CO_DATA)&HistNum);
         for (i = 0; i < NC.hist; i++) od_add(&b, CO_KEY(0x1003, 1 + i, CO_OBJ_____R_), CO_TEMCY_HIST, (CO_DATA)&Hist[i]);
@@ -83,7 +91,7 @@ static void nc_prepare(void)
     if (NC.sync) {
         SyncId = NC.sync_id; SyncCycle = NC.sync_cycle;
         od_add(&b, CO_KEY(0x1005, 0, CO_OBJ_____RW), CO_TSYNC_ID, (CO_DATA)&SyncId);
-        od_add(&b, CO_KEY(0x1006, 0, CO_OBJ_____RW), CO_TSYNC_CYCLE, (CO_DATA)&SyncCycle);
+        if (!NC.sync_no_cycle) od_add(&b, CO_KEY(0x1006, 0, CO_OBJ_____RW), CO_TSYNC_CYCLE, (CO_DATA)&SyncCycle);
     }
     if (NC.emcy) {
         EmcyId = NC.emcy_id;
@@ -100,10 +108,10 @@ static void nc_prepare(void)
     }
     if (NC.hbprod) { HbTime = NC.hb_time; od_add(&b, CO_KEY(0x1017, 0, CO_OBJ_____RW), CO_THB_PROD, (CO_DATA)&HbTime); }
     if (NC.csdo) {
-        CsdoCobTx = 0x600 + 5; CsdoCobRx = 0x580 + 5; CsdoNode = 5;
+        CsdoCobTx = 0x600; CsdoCobRx = 0x580; CsdoNode = 5;   /* the client adds the server node id: requests on 605h, responses on 585h */
         od_add(&b, CO_KEY(0x1280, 0, CO_OBJ_D___R_), CO_TUNSIGNED8, (CO_DATA)3);
-        od_add(&b, CO_KEY(0x1280, 1, CO_OBJ_____RW), CO_TUNSIGNED32, (CO_DATA)&CsdoCobTx);
-        od_add(&b, CO_KEY(0x1280, 2, CO_OBJ_____RW), CO_TUNSIGNED32, (CO_DATA)&CsdoCobRx);
+        od_add(&b, CO_KEY(0x1280, 1, CO_OBJ_____RW), NC.sdo_dyn ? CO_TSDO_ID : CO_TUNSIGNED32, (CO_DATA)&CsdoCobTx);
+        od_add(&b, CO_KEY(0x1280, 2, CO_OBJ_____RW), NC.sdo_dyn ? CO_TSDO_ID : CO_TUNSIGNED32, (CO_DATA)&CsdoCobRx);
         od_add(&b, CO_KEY(0x1280, 3, CO_OBJ_____RW), CO_TUNSIGNED8, (CO_DATA)&CsdoNode);
     }
     for (i = 0; i < NC.n_rpdo; i++) if (NC.rpdo[i].present) {
@@ -149,7 +157,7 @@ static void nc_prepare(void)
     W_REG(SyncId); W_REG(SyncCycle); W_REG(EmcyId); W_REG(HistNum); W_REG(Hist);
     W_REG(RpCob); W_REG(TpCob); W_REG(RpMap); W_REG(TpMap); W_REG(RpType); W_REG(TpType); W_REG(RpNum); W_REG(TpNum); W_REG(TpInh); W_REG(TpEvt);
     W_REG(A8); W_REG(P8); W_REG(B8); W_REG(A16); W_REG(P16); W_REG(W16); W_REG(A32); W_REG(P32); W_REG(N32); W_REG(R32); W_REG(W32);
-    W_REG(CsdoCobTx); W_REG(CsdoCobRx); W_REG(CsdoNode); W_REG(DomData); W_REG(DomObj);
+    W_REG(CsdoCobTx); W_REG(CsdoCobRx); W_REG(CsdoNode); W_REG(SsdoRx); W_REG(SsdoTx); W_REG(DomData); W_REG(DomObj);
     for (i = 0; i < CO_SSDO_N; i++) w_nohash_range(&Node.Sdo[i].Frm, sizeof Node.Sdo[i].Frm);
     /* these harnesses only use expedited transfers: the server is idle between steps and the multiplexer / abort
      * override latched from the last request are overwritten by the next one before they are read */
